@@ -180,6 +180,43 @@ func c11(c *core.Ctx) {
 		c11Walk(c, w.size, w.rto, w.noRetrans, w.interfere, w.pos)
 	})
 	c.MarkExhaustive("schedule walks: 12 sizes x 4 RTOs x {7,0} retransmissions x 5 interferences x every position")
+	// the library's own ticker collector must collect at the injected clock's time, not at wall time: virtual time is
+	// held decades before the wall clock, ticks fire every millisecond of real time, nothing may be retransmitted
+	c.SectionSerial("ticker-collector-with-virtual-clock", 3, func(i int64, _ *gen.Rand) {
+		c.Eval(1)
+		r, err := newRig(rigOpts{realCollector: true, rto: 300 * time.Millisecond, noRetransmit: i == 2})
+		if err != nil {
+			c.Violate("newclient", "newclient", err.Error())
+
+			return
+		}
+		r.w.SetNow(-int64(27 * 365 * 24 * time.Hour)) // about the year 2000
+		t := r.newTx("Start", seqTID(1), 64)
+		if err := r.start(t); err != nil {
+			c.Violate("start-failed", "start-failed", err.Error())
+
+			return
+		}
+		time.Sleep(40 * time.Millisecond) // dozens of ticks; the virtual clock has not moved
+		ws := r.writesFor(t, r.conn.Writes())
+		inv := t.invocations()
+		if len(ws) != 1 || len(inv) != 0 {
+			c.Violate("write-count", "write-before-deadline:ticker-collector", map[string]interface{}{
+				"problem": fmt.Sprintf("virtual clock stands still before the first deadline, yet %d transmissions and handler invocations %v", len(ws), classesOf(inv)), "ledger": r.describe()})
+		}
+		if i >= 1 {
+			// one nanosecond before the deadline: still nothing
+			r.w.SetNow(r.w.VNow() + int64(300*time.Millisecond) - 1)
+			time.Sleep(20 * time.Millisecond)
+			if n := len(r.writesFor(t, r.conn.Writes())); n != 1 || len(t.invocations()) != 0 {
+				c.Violate("write-count", "write-before-deadline:ticker-collector", map[string]interface{}{
+					"problem": fmt.Sprintf("virtual clock 1ns before the first deadline, yet %d transmissions / invocations %v", n, classesOf(t.invocations())), "ledger": r.describe()})
+			}
+		}
+		_ = r.close()
+		c.Count("ticker_collector_walks", 1)
+		c.DistinctStr(fmt.Sprintf("ticker-collector-%d", i))
+	})
 	// random sizes
 	c.Section("schedule-walks-random", c.N(300, 20000), func(_ int64, r *gen.Rand) {
 		size := r.PickInt([]int{20 + r.Intn(3000), 2040 + r.Intn(20), 20 + r.Intn(65536)})
